@@ -453,6 +453,94 @@ def _fmt_ops(ops):
     return ' ; '.join(out)
 
 
+def _block_oracle(src, sw, sh, w, h, filt):
+    """C15_bilinear / C15_nearest: destination pixel (x, y) from the sx x sy block of the source."""
+    sx, sy = sw // w, sh // h
+    out = []
+    for y in range(h):
+        for x in range(w):
+            for c in range(4):
+                S = lambda dx, dy: src[4 * (sw * (sy * y + dy) + sx * x + dx) + c]
+                if filt == 4:
+                    out.append((S(0, 0) + S(sx - 1, 0) + S(0, sy - 1) + S(sx - 1, sy - 1)) // 4)
+                else:
+                    out.append(S(sx - 1 if filt % 2 == 1 else 0, sy - 1 if filt // 2 == 1 else 0))
+    return out
+
+
+def check_rescale(ctx, V, sw, sh, w, h, filt, seed):
+    """Frame.rescale_from on one shape transition against the block average / corner pixel."""
+    from array import array
+    r = random.Random(f'rescale:{sw}:{sh}:{w}:{h}:{filt}:{seed}')
+    src = [r.choice(U.GRID9) if r.random() < 0.3 else r.randrange(256) for _ in range(4 * sw * sh)]
+    inp = {'kind': 'rescale', 'sw': sw, 'sh': sh, 'w': w, 'h': h, 'filt': filt, 'seed': seed}
+    try:
+        big = V.Frame(sw, sh); big.copy_from(bytes(src))
+        small = V.Frame(w, h)
+        small.rescale_from(big, V.FilterMode(filt))
+        got = list(small._data)
+    except Exception as e:  # noqa
+        W(ctx, 'scale-down', f'Frame({w}x{h}).rescale_from({sw}x{sh}, filter {filt}) raised {type(e).__name__}: {e}', inp)
+        return False
+    want = _block_oracle(src, sw, sh, w, h, filt)
+    if got != want:
+        i = next(i for i in range(len(want)) if got[i] != want[i])
+        W(ctx, 'scale-down', f'Frame({w}x{h}).rescale_from({sw}x{sh}, filter {filt}): component {i} is {got[i]}, the '
+          f'{"floor average of the source block" if filt == 4 else "selected source pixel"} is {want[i]}', inp)
+        return False
+    return True
+
+
+def handmade_vtf(w, h, levels, fmt_ind=0, minor=2):
+    """A 7.2 file built byte by byte: one frame, FULL mipmap chain down to 1x1, no thumbnail. `levels[m]` = RGBA bytes of level m."""
+    hdr = b'VTF\0' + struct.pack('<II', 7, minor) + struct.pack('<IHHIHH4xfff4xfiBiBB', 80, w, h, 0, 1, 0, 0.5, 0.25, 1.0, 1.0,
+                                                                  fmt_ind, len(levels), -1, 0, 0)
+    hdr += struct.pack('<H', 1) + bytes(15)
+    assert len(hdr) == 80
+    body = b''.join(bytes(levels[m]) for m in reversed(range(len(levels))))
+    return hdr + body
+
+
+def check_full_chain(ctx, V, C, w, h, seed, via):
+    """A non-square texture with a complete chain to 1x1 (which VTF() never builds): read from hand-made bytes, mipmaps
+    cleared, regenerated (by save / compute_mipmaps), saved, read back: every level is the floor average of its parent."""
+    r = random.Random(f'chain:{w}:{h}:{seed}')
+    n = max(w, h).bit_length()
+    dims = [(max(w >> m, 1), max(h >> m, 1)) for m in range(n)]
+    levels = [[r.randrange(256) for _ in range(4 * a * b)] for a, b in dims]
+    inp = {'kind': 'chain', 'w': w, 'h': h, 'seed': seed, 'via': via}
+    try:
+        data = handmade_vtf(w, h, levels)
+        v = V.VTF.read(BytesIO(data))
+        got = {U.key_val(k)[2]: None for k in v._frames}
+        if sorted(got) != list(range(n)):
+            W(ctx, 'full-chain', f'{w}x{h} file with {n} mipmaps is read as levels {sorted(got)}', inp); return False
+        for m in range(n):
+            fr = v.get(mipmap=m)
+            if (fr.width, fr.height) != dims[m] or list(bytes(fr)) != levels[m]:
+                W(ctx, 'full-chain', f'{w}x{h}: level {m} of the hand-made file is not read back', inp); return False
+        v.clear_mipmaps()
+        if via == 'compute':
+            v.compute_mipmaps()
+        b = BytesIO(); v.save(b)
+        v2 = V.VTF.read(BytesIO(b.getvalue()))
+        prev = levels[0]
+        for m in range(n):
+            px = list(bytes(v2.get(mipmap=m)))
+            want = prev if m == 0 else _block_oracle(prev, dims[m - 1][0], dims[m - 1][1], dims[m][0], dims[m][1], 4)
+            if px != want:
+                i = next(i for i in range(len(want)) if px[i] != want[i])
+                W(ctx, 'full-chain', f'{w}x{h} read from a file, clear_mipmaps(), {via}, save, read: level {m} '
+                  f'({dims[m][0]}x{dims[m][1]}) component {i} is {px[i]}, the floor average of its {dims[m-1][0]}x{dims[m-1][1]} '
+                  f'parent is {want[i]}', inp)
+                return False
+            prev = px
+    except Exception as e:  # noqa
+        W(ctx, 'full-chain', f'{w}x{h} full-chain file ({via}): {type(e).__name__}: {e}', inp)
+        return False
+    return True
+
+
 # ------------------------------------------------------------------ correspondence
 
 def correspond(ctx, drivers):
@@ -709,6 +797,34 @@ def correspond(ctx, drivers):
         ctx.case({'op': 'resave', 'spec': spec, 'mode': mode}, nontrivial=True, sample_every=41)
         ctx.count('resave:' + ('lazy' if not mode else '+'.join(str(o[0]) for o in mode)))
         done += 1
+    # ... and hand-made files with full chains to 1x1 (sizes the constructor never declares), cleared and regenerated
+    for (w_, h_) in [(4, 16), (16, 4), (1, 8), (8, 1), (2, 16), (8, 8), (1, 2), (32, 4)]:
+        r_ = random.Random(f'chainK:{w_}:{h_}:{ctx.seed}')
+        n_ = max(w_, h_).bit_length()
+        lv = [[r_.randrange(256) for _ in range(4 * max(w_ >> m, 1) * max(h_ >> m, 1))] for m in range(n_)]
+        d = handmade_vtf(w_, h_, lv)
+        iv = U.impl_view(V, d)
+        if 'err' in iv:
+            continue
+        for mode in ([[0, 0]], [[0, 1], [1, 4]], [[0, 0], [1, 2]], []):
+            mj2 = {k: iv[k] for k in ('width', 'height', 'depth', 'minor', 'flags', 'frame_count', 'first', 'refl', 'bump', 'fmt',
+                                      'low_fmt', 'mip_count', 'res', 'sheet')}
+            mj2['low'] = {'w': iv['low_w'], 'h': iv['low_h'], 'data': None, 'file': None}
+            mj2['frames'] = [{'key': f['key'], 'w': f['w'], 'h': f['h'], 'data': None, 'file': f['px']} for f in iv['frames']]
+            r = V.VTF.read(BytesIO(d)); b2 = BytesIO()
+            try:
+                for op, arg in mode:
+                    if op == 0: r.clear_mipmaps(after=arg)
+                    else: r.compute_mipmaps(V.FilterMode(arg))
+                r.save(b2)
+                impl = list(b2.getvalue())
+            except Exception as e:  # noqa
+                impl = {'err': type(e).__name__}
+            spec = {'handmade': [w_, h_]}
+            reqs.append({'op': 'save', 'vtf': mj2, 'minor': iv['minor'], 'sheetver': 1, 'asw': True, 'ops': mode})
+            meta.append((spec, mode, impl))
+            ctx.case({'op': 'resave-handmade', 'w': w_, 'h': h_, 'mode': mode}, nontrivial=True, sample_every=7)
+            ctx.count('resave:handmade-full-chain')
     for (spec, mode, impl), rep in zip(meta, drv.batch(reqs, timeout=900)):
         ctx.traces_vs_impl += 1
         got = rep.get('bytes', rep)
@@ -805,6 +921,18 @@ def search(ctx):
             check_words(ctx, V, C, nm)
     for w, h in [(1, 1), (2, 2), (4, 4), (1, 4), (4, 1), (3, 5)]:
         check_bounds(ctx, V, w, h)
+    # scale_down through the public Frame.rescale_from: every shape transition (halved / unchanged in each direction), all filters
+    for sw, sh in itertools.product([1, 2, 4, 8, 16], repeat=2):
+        for w, h in sorted({(max(sw // 2, 1), max(sh // 2, 1)), (sw, max(sh // 2, 1)), (max(sw // 2, 1), sh), (sw, sh)}):
+            for filt in (0, 1, 2, 3, 4):
+                for sd in range(ctx.budget(1, 3)):
+                    check_rescale(ctx, V, sw, sh, w, h, filt, sd)
+                    ctx.count('search:rescale')
+    # hand-made files with FULL chains to 1x1 (non-square too): read, clear, regenerate, save, read
+    for w, h in [(4, 16), (16, 4), (1, 8), (8, 1), (2, 16), (16, 2), (8, 8), (1, 1), (2, 1), (1, 2), (32, 4), (4, 32)]:
+        for via in ('save', 'compute'):
+            check_full_chain(ctx, V, C, w, h, ctx.seed, via)
+            ctx.count('search:full-chain')
     for nm in names:
         for sd in range(ctx.budget(2, 8)):
             check_lazy_resave(ctx, V, C, nm, sd)
@@ -915,6 +1043,10 @@ def replay(ctx, payload, quiet=False):
         check_file(ctx, V, C, inp['spec'])
     elif kind == 'lazy':
         check_lazy_resave(ctx, V, C, inp['fmt'], inp['seed'])
+    elif kind == 'rescale':
+        check_rescale(ctx, V, inp['sw'], inp['sh'], inp['w'], inp['h'], inp['filt'], inp['seed'])
+    elif kind == 'chain':
+        check_full_chain(ctx, V, C, inp['w'], inp['h'], inp['seed'], inp['via'])
     elif kind == 'history':
         sp = dict(inp['spec']); sp['_names'] = _names(V, C)
         check_history(ctx, V, C, sp, inp['ops'])
